@@ -154,6 +154,22 @@ def cases(tier, seed):
                                         "opkind": opkind, "n": n, "neig": 2, "mode": mode, "spectrum": "near",
                                         "param": "P1", "dtype": d, "order": order, "batch": "-", "plane": 0,
                                         "degtol": 1})
+                            # both tolerances given as exactly 0.0 (documented: no special treatment): same answer
+                            out.append({"fam": "symeig", "method": "custom_exacteig", "bck": "exactsolve", "M": M,
+                                        "opkind": opkind, "n": n, "neig": 2, "mode": mode, "spectrum": "near",
+                                        "param": "P1", "dtype": d, "order": order, "batch": "-", "plane": 0,
+                                        "degtol": 2})
+                            # exactly ONE tolerance given as 0.0 on an exactly degenerate pair: the other tolerance
+                            # (default) still declares the pair degenerate
+                            lamd = spectrum("deg2", n)
+                            ncl = [q for q in boundary_neigs(lamd, mode, 0.0)
+                                   if any(len(c) > 1 and set(c) <= set(selected(n, q, mode)) for c in clusters(lamd, 0.0))]
+                            for dg in (3, 4):
+                                for param in ("P1", "P2"):
+                                    out.append({"fam": "symeig", "method": "custom_exacteig", "bck": "exactsolve",
+                                                "M": M, "opkind": opkind, "n": n, "neig": ncl[0], "mode": mode,
+                                                "spectrum": "deg2", "param": param, "dtype": d, "order": order,
+                                                "batch": "-", "plane": 0, "degtol": dg})
     # ---- operators that are diagonal / have a decoupled state (exactly singular shifted systems in the backward)
     for n in ((3, 5) if not thorough else (2, 3, 5, 6)):
         for basis in ("eye", "dec0", "decn"):
@@ -534,7 +550,9 @@ def run_symeig(cfg):
         kw = {} if cfg["method"] == "exacteig" else {"bck_options": dict(BCK[cfg["bck"]])}
         if cfg.get("degtol") and "bck_options" in kw:
             # the caller declares the spectrum non-degenerate (tolerances far below the gap of 2e-7)
-            kw["bck_options"].update({"degen_atol": 1e-12, "degen_rtol": 1e-12})
+            kw["bck_options"].update({1: {"degen_atol": 1e-12, "degen_rtol": 1e-12},
+                                      2: {"degen_atol": 0.0, "degen_rtol": 0.0},
+                                      3: {"degen_atol": 0.0}, 4: {"degen_rtol": 0.0}}[cfg["degtol"]])
         torch.manual_seed(4242)
         return symeig(Aop, neig=neig, mode=mode, M=Mop, method=cfg["method"], **kw, **_fwd_opts(cfg, neig, n))
 
